@@ -1,0 +1,135 @@
+//go:build verif
+
+// Machine-checked contracts for the kernel of samber/ro (observer, subscriber,
+// subscription, observable). This file contains comments only: it adds no code
+// to any build. The `//@` lines are read by the verifier in /verif (rovc), which
+// generates verification conditions from the SSA form of the functions named
+// here and discharges them with SMT solvers. Syntax: /verif/DESIGN.md section 2.3.
+
+package ro
+
+// ---------------------------------------------------------------------------
+// observer.go
+// ---------------------------------------------------------------------------
+
+//@ type observerImpl
+//@   atomic status : rely new == old || (old == 0 && (new == 1 || new == 2)) ; guar old == 0 && (new == 1 || new == 2)
+//@   const onNext onError onComplete
+
+//@ pure recoverValueToError
+//@ pure newObserverError
+//@ pure newObservableError
+//@ pure newUnsubscriptionError
+
+//@ func (*observerImpl).NextWithContext
+//@   props C01 C07
+//@   panicforks
+//@   inline (*observerImpl).tryNext (*observerImpl).tryError
+//@   track callfn.* hook.* call.NewNotification*
+//@   ensures [next-only-when-open|C01] called(callfn.onNext) ==> loaded(status) == 0
+//@   ensures [refused-is-dropped|C01] !called(callfn.onNext) ==> trace(call.NewNotificationNext(value), hook.OnDroppedNotification(ctx, _))
+//@   ensures [delivered-once|C01] called(callfn.onNext) && !panicked(onNext) ==> trace(callfn.onNext(ctx, value))
+//@   ensures [panic-becomes-error|C07] panicked(onNext) && o.onError != nil && !panicked(onError) ==> trace(callfn.onNext(ctx, value), callfn.onError(ctx, newObserverError(recoverValueToError(panicval(onNext)))))
+//@   ensures [panic-without-handler-unhandled|C07] panicked(onNext) && o.onError == nil ==> trace(callfn.onNext(ctx, value), hook.OnUnhandledError(ctx, newObserverError(recoverValueToError(panicval(onNext)))))
+//@   ensures [double-panic-unhandled|C07] panicked(onNext) && panicked(onError) ==> trace(callfn.onNext(ctx, value), callfn.onError(ctx, _), hook.OnUnhandledError(ctx, newObserverError(recoverValueToError(panicval(onError)))))
+//@   ensures [closed-after-next-panic|C01,C07] panicked(onNext) ==> o.status != 0
+
+//@ func (*observerImpl).ErrorWithContext
+//@   props C01 C07
+//@   panicforks
+//@   inline (*observerImpl).tryError
+//@   track callfn.* hook.* call.NewNotification*
+//@   ensures [error-only-by-cas-winner|C01] called(callfn.onError) ==> cas_ok(status)
+//@   ensures [refused-is-dropped|C01] !cas_ok(status) ==> trace(call.NewNotificationError(err), hook.OnDroppedNotification(ctx, _))
+//@   ensures [delivered-once|C01] cas_ok(status) && !panicked(onError) ==> trace(callfn.onError(ctx, err))
+//@   ensures [panic-unhandled|C07] panicked(onError) ==> trace(callfn.onError(ctx, err), hook.OnUnhandledError(ctx, newObserverError(recoverValueToError(panicval(onError)))))
+//@   ensures [closed-after|C01] cas_ok(status) ==> o.status == 1
+
+//@ func (*observerImpl).CompleteWithContext
+//@   props C01 C07
+//@   panicforks
+//@   inline (*observerImpl).tryComplete
+//@   track callfn.* hook.* call.NewNotification*
+//@   ensures [complete-only-by-cas-winner|C01] called(callfn.onComplete) ==> cas_ok(status)
+//@   ensures [refused-is-dropped|C01] !cas_ok(status) ==> trace(call.NewNotificationComplete(), hook.OnDroppedNotification(ctx, _))
+//@   ensures [delivered-once|C01] cas_ok(status) && !panicked(onComplete) ==> trace(callfn.onComplete(ctx))
+//@   ensures [panic-unhandled|C07] panicked(onComplete) ==> trace(callfn.onComplete(ctx), hook.OnUnhandledError(ctx, newObserverError(recoverValueToError(panicval(onComplete)))))
+//@   ensures [closed-after|C01] cas_ok(status) ==> o.status == 2
+
+//@ func (*observerImpl).IsClosed
+//@   props C01 C06
+//@   ensures [reads-status] result == (loaded(status) != 0)
+
+//@ func (*observerImpl).HasThrown
+//@   props C01
+//@   ensures [reads-status] result == (loaded(status) == 1)
+
+//@ func (*observerImpl).IsCompleted
+//@   props C01
+//@   ensures [reads-status] result == (loaded(status) == 2)
+
+// ---------------------------------------------------------------------------
+// subscriber.go
+// ---------------------------------------------------------------------------
+
+//@ type subscriberImpl
+//@   atomic status : rely new == old || (old == 0 && (new == 1 || new == 2)) ; guar old == 0 && (new == 1 || new == 2)
+//@   const backpressure mu destination Subscription mode
+//@   ghost term bool
+//@   lock mu protects term
+//@   lockinv mu : term ==> status != 0
+//@   onevent destination.NextWithContext : requires held(mu) ; requires !term
+//@   onevent destination.ErrorWithContext : requires held(mu) ; requires !term ; sets term = true
+//@   onevent destination.CompleteWithContext : requires held(mu) ; requires !term ; sets term = true
+
+//@ func (*subscriberImpl).NextWithContext
+//@   props C01 C02 C06 C08
+//@   track destination.* hook.* call.NewNotification* Subscription.* go.*
+//@   ensures [nil-destination-silent|C01] s.destination == nil ==> trace()
+//@   ensures [block-mode-waits|C08] s.backpressure != 1 ==> !tried(mu)
+//@   ensures [delivers-iff-open|C01,C06,C08] did_load(status) ==> iff(loaded(status) == 0, trace(destination.NextWithContext(ctx, v)))
+//@   ensures [closed-is-dropped|C01,C06] did_load(status) && loaded(status) != 0 ==> trace(call.NewNotificationNext(v), hook.OnDroppedNotification(ctx, _))
+//@   ensures [contention-is-dropped|C01] tried(mu) && !trylock(mu) ==> trace(call.NewNotificationNext(v), hook.OnDroppedNotification(ctx, _))
+
+//@ func (*subscriberImpl).ErrorWithContext
+//@   props C01 C02 C03 C06 C14
+//@   inline (*subscriberImpl).unsubscribe
+//@   track destination.* hook.* call.NewNotification* Subscription.* go.*
+//@   ensures [winner-delivers-then-tears-down|C01,C03,C06,C14] cas_ok(status) && s.destination != nil ==> trace(destination.ErrorWithContext(ctx, err), Subscription.Unsubscribe())
+//@   ensures [winner-nil-destination|C03] cas_ok(status) && s.destination == nil ==> trace(Subscription.Unsubscribe())
+//@   ensures [loser-is-dropped|C01] !cas_ok(status) ==> trace(call.NewNotificationError(err), hook.OnDroppedNotification(ctx, _), Subscription.Unsubscribe())
+//@   ensures [teardown-outside-producer-lock|C03,C06] notheldat(mu, Subscription.Unsubscribe)
+//@   ensures [terminal-waits-for-lock|C02] !tried(mu) && count(lock.mu) == 1
+//@   ensures [closed-on-return|C06] s.status != 0
+
+//@ func (*subscriberImpl).CompleteWithContext
+//@   props C01 C02 C03 C06 C14
+//@   inline (*subscriberImpl).unsubscribe
+//@   track destination.* hook.* call.NewNotification* Subscription.* go.*
+//@   ensures [winner-delivers-then-tears-down|C01,C03,C06,C14] cas_ok(status) && s.destination != nil ==> trace(destination.CompleteWithContext(ctx), Subscription.Unsubscribe())
+//@   ensures [winner-nil-destination|C03] cas_ok(status) && s.destination == nil ==> trace(Subscription.Unsubscribe())
+//@   ensures [loser-is-dropped|C01] !cas_ok(status) ==> trace(call.NewNotificationComplete(), hook.OnDroppedNotification(ctx, _), Subscription.Unsubscribe())
+//@   ensures [teardown-outside-producer-lock|C03,C06] notheldat(mu, Subscription.Unsubscribe)
+//@   ensures [terminal-waits-for-lock|C02] !tried(mu) && count(lock.mu) == 1
+//@   ensures [closed-on-return|C06] s.status != 0
+
+//@ func (*subscriberImpl).Unsubscribe
+//@   props C03 C06 C14
+//@   inline (*subscriberImpl).unsubscribe
+//@   track destination.* hook.* Subscription.* lock.* trylock.* go.*
+//@   ensures [cut|C06] s.status != 0
+//@   ensures [winner-tears-down|C03,C14] cas_ok(status) ==> trace(Subscription.Unsubscribe())
+//@   ensures [loser-does-nothing|C03] !cas_ok(status) ==> trace()
+//@   ensures [never-takes-producer-lock|C06] count(lock.mu) == 0 && count(trylock.mu) == 0
+
+//@ func (*subscriberImpl).IsClosed
+//@   props C06
+//@   ensures [reads-status] result == (loaded(status) != 0)
+
+//@ func (*subscriberImpl).HasThrown
+//@   props C06
+//@   ensures [reads-status] result == (loaded(status) == 1)
+
+//@ func (*subscriberImpl).IsCompleted
+//@   props C06
+//@   ensures [reads-status] result == (loaded(status) == 2)
